@@ -293,7 +293,7 @@ def _gen_digest_case(rng, i, thorough, with_inplace=False):
     # every 3rd case: filter OBJECTS passed through `filters=`; each non-reference interpreter makes them once and hands the
     # same instances to every call of its history, incl. the compile of ANOTHER font with other vertical metrics that some
     # histories start with (an option object used before must behave like a new, equal one)
-    if i % 3 == 1 and not markliga:   # (markliga cases are built around exact distances a transformation would change)
+    if i % 3 == 1:   # incl. the mark-only-ligature cases: a pre filter that moves a base glyph found the defect repaired in fac0d66
         opts = dict(opts, filterObjs=_gen_filter_objs(rng))
         # finding F2 (same root as F1): anchors MOVED by a filter are read from the caller's source font by the feature writers,
         # so inplace=True (filter applied to the source itself) gives other GPOS/GDEF than inplace=False.  inplace steps run in
@@ -404,7 +404,19 @@ def gen(rng, n, mode):
                       "now": rng.sample(range(1, 4 * 10 ** 9), 2), "lib": rng.choice(["ufoLib2", "defcon"])}
             elif k == "closest":
                 gl, name, exact = L.markliga_glyphs(rng, between=adversarial or rng.random() < 0.7, prefix="")
-                it = {"op": k, "seed": s, "glyphs": gl, "composite": name, "exact": [[rat(x), rat(y)] for x, y in exact]}
+                # half of the items: an EARLIER filter has moved one base glyph in the copied glyph set (what a pre
+                # TransformationsFilter restricted to some glyphs does); the exact corner of the component that refers to it moves
+                # with it, the source font's own glyph does not (defect repaired in fac0d66: defcon measured the source layer)
+                moved = None
+                if rng.random() < 0.5:
+                    comps = [g for g in gl if g["name"] == name][0]["components"]
+                    j = rng.randrange(len(comps))
+                    mdx, mdy = rng.choice([0, 40, 400, 900]), rng.choice([0, 0, 300, 800])
+                    if mdx or mdy:
+                        moved = {"glyph": comps[j][0], "by": [mdx, mdy]}
+                        exact = [list(e) for e in exact]
+                        exact[j] = [exact[j][0] + mdx, exact[j][1] + mdy]
+                it = {"op": k, "seed": s, "glyphs": gl, "composite": name, "exact": [[rat(x), rat(y)] for x, y in exact], "moved": moved}
             elif k == "vfinfo":
                 # a master's fontinfo (the digest fonts' info + some of the pool's attributes at OTHER values) and the overrides of
                 # a <variable-font>: attributes the master has, attributes it lacks, values equal to the master's
@@ -801,6 +813,9 @@ def _run_closest(it, rng):
     for lib in ("defcon", "ufoLib2"):
         font = build({"glyphs": it["glyphs"]}, lib)
         gs = _GlyphSet.from_layer(font, copy=True)
+        if it.get("moved"):
+            from ufo2ft.filters.transformations import TransformationsFilter
+            TransformationsFilter(OffsetX=it["moved"]["by"][0], OffsetY=it["moved"]["by"][1], include=[it["moved"]["glyph"]])(font, gs)
         comps = list(gs[it["composite"]].components)
         try:
             bounds = [[rat(v) for v in P._bounds(c, gs)] for c in comps]
@@ -809,7 +824,7 @@ def _run_closest(it, rng):
         except Exception:    # pragma: no cover
             bounds, chosen = [], None
         obs[lib] = {"bounds": bounds, "chosen": chosen}
-    return {"op": "closest", "in": {"exact": it["exact"]}, "obs": obs, "tags": ["emit:closest", "emit:closest:chosen=%s" % obs["ufoLib2"]["chosen"]],
+    return {"op": "closest", "in": {"exact": it["exact"]}, "obs": obs, "tags": ["emit:closest", "emit:closest:chosen=%s" % obs["ufoLib2"]["chosen"], "emit:closest:base-moved-by-earlier-filter=%s" % bool(it.get("moved"))],
             "nontrivial": len(it["exact"]) > 1}
 
 
